@@ -451,7 +451,7 @@ func newSpecSet() *SpecSet {
 var clauseKeywords = map[string]bool{
 	"requires": true, "ensures": true, "modifies": true, "trusted": true, "panics": true, "loop": true,
 	"invariant": true, "progress": true, "at": true, "func": true, "pred": true, "fn": true, "ufn": true, "sort": true,
-	"ghost": true, "axiom": true, "layout": true, "callers": true, "pin": true, "typeshape": true,
+	"ghost": true, "axiom": true, "layout": true, "callers": true, "pin": true, "typeshape": true, "loopexits": true,
 	"lemma": true, "inline": true, "nocall": true, "package": true, "freshresult": true, "opaque": true, "interference": true,
 }
 
@@ -584,7 +584,7 @@ func (ss *SpecSet) ParseSpecFile(path string, goComments bool, pkgPath string) e
 				return fmt.Errorf("%s:%d: %v", path, it.line, err)
 			}
 			ss.Lemmas = append(ss.Lemmas, &Lemma{Tags: tags, Label: label, E: e, Pkg: pkgPath, Src: rest})
-		case "layout", "callers", "pin", "typeshape", "nocall":
+		case "layout", "callers", "pin", "typeshape", "nocall", "loopexits":
 			tags, label, rest := parseLabel(it.text)
 			_ = label
 			ss.Structs = append(ss.Structs, &StructDecl{Kind: it.kw, Tags: tags, Args: strings.TrimSpace(label + " " + rest), Pkg: pkgPath, File: path, Line: it.line})
@@ -733,25 +733,26 @@ func qualifyKey(pkg, key string) string {
 var funcHdrRe = regexp.MustCompile(`^(\S+?)\s*\(([^)]*)\)\s*(?:\(([^)]*)\))?\s*$`)
 
 func parseFuncHeader(s string) (*FuncContract, error) {
-	// KEY(p1, p2) (r1, r2); KEY may itself contain parentheses: (*kv).put
+	// KEY(p1, p2) (r1, r2); KEY may itself contain parentheses: (*kv).put, param:(T).M.x
 	s = strings.TrimSpace(s)
-	// find the parameter list: the first '(' that follows the method/function name
-	i := 0
-	if strings.HasPrefix(s, "(") {
-		i = strings.Index(s, ")")
-		if i < 0 {
-			return nil, fmt.Errorf("bad func header %q", s)
+	type grp struct{ a, b int }
+	var groups []grp
+	depth, start := 0, -1
+	for i := 0; i < len(s); i++ {
+		switch s[i] {
+		case '(':
+			if depth == 0 {
+				start = i
+			}
+			depth++
+		case ')':
+			depth--
+			if depth == 0 && start >= 0 {
+				groups = append(groups, grp{start, i})
+			}
 		}
 	}
-	j := strings.Index(s[i:], "(")
-	if j < 0 {
-		return nil, fmt.Errorf("bad func header %q", s)
-	}
-	j += i
-	key := strings.TrimSpace(s[:j])
-	rest := s[j:]
-	k := strings.Index(rest, ")")
-	if k < 0 {
+	if len(groups) == 0 || depth != 0 || groups[len(groups)-1].b != len(s)-1 {
 		return nil, fmt.Errorf("bad func header %q", s)
 	}
 	split := func(x string) []string {
@@ -763,13 +764,21 @@ func parseFuncHeader(s string) (*FuncContract, error) {
 		}
 		return out
 	}
-	fc := &FuncContract{Key: key, Params: split(rest[1:k])}
-	rest = strings.TrimSpace(rest[k+1:])
-	if rest != "" {
-		if !strings.HasPrefix(rest, "(") || !strings.HasSuffix(rest, ")") {
-			return nil, fmt.Errorf("bad result list in %q", s)
+	last := groups[len(groups)-1]
+	params, results := last, grp{-1, -1}
+	if len(groups) >= 2 {
+		prev := groups[len(groups)-2]
+		between := s[prev.b+1 : last.a]
+		if strings.TrimSpace(between) == "" && len(between) > 0 {
+			params, results = prev, last
 		}
-		fc.Results = split(rest[1 : len(rest)-1])
+	}
+	fc := &FuncContract{Key: strings.TrimSpace(s[:params.a]), Params: split(s[params.a+1 : params.b])}
+	if results.a >= 0 {
+		fc.Results = split(s[results.a+1 : results.b])
+	}
+	if fc.Key == "" {
+		return nil, fmt.Errorf("bad func header %q", s)
 	}
 	return fc, nil
 }
